@@ -553,6 +553,64 @@ func main() {
 			})
 		})
 
+		// A text message rejected for its content (read to its very end, or only in part), which
+		// the caller then discards, leaves nothing behind: the next text message is judged on its
+		// own bytes alone.
+		r.Part("E4b-rejected-message-discarded-then-next-message", func(t *explore.T) {
+			bad := [][]byte{{0xff}, {'a', 0xff}, {0xe2, 0x82}, {'a', 'b', 0xc3}, {0xf0, 0x9f, 0x98}, {0xed, 0xa0, 0x80}, {0xc3, 0xa9, 0x80}, {'o', 'k'}}
+			nexts := [][]byte{[]byte("hello"), {0xac}, {0x82, 0xac}, {0xa9}, {0x98, 0x80}, {0xc3, 0xa9}, {}}
+			for _, side := range []streams.Side{streams.Server, streams.Client} {
+				for _, first := range bad {
+					for split := 0; split <= len(first); split++ {
+						for _, how := range []string{"read-to-the-end", "read-1-byte", "not-read"} {
+							for _, next := range nexts {
+								side, first, split, how, next := side, first, split, how, next
+								t.Do(func() string {
+									return fmt.Sprintf("%s text %x|%x (%s), Discard, then text %x", side, first[:split], first[split:], how, next)
+								}, func() *explore.Fail {
+									mk := func(i int, op byte, fin bool, p []byte) []byte {
+										return streams.Frame{H: refmodel.Hdr{Fin: fin, Op: op, Masked: side == streams.Server, Mask: streams.Masks[i%3]}, Payload: p}.Wire()
+									}
+									var data []byte
+									if split == 0 || split == len(first) {
+										data = mk(0, 1, true, first)
+									} else {
+										data = append(mk(0, 1, false, first[:split]), mk(0, 0, true, first[split:])...)
+									}
+									data = append(data, mk(1, 1, true, next)...)
+									rd := &wsutil.Reader{Source: env.NewSrc(data), State: drivers.State(side), CheckUTF8: true}
+									if _, err := rd.NextFrame(); err != nil {
+										return explore.Failf("harness-first-frame", "%v", err)
+									}
+									switch how {
+									case "read-to-the-end":
+										io.ReadAll(rd)
+									case "read-1-byte":
+										rd.Read(make([]byte, 1))
+									}
+									if err := rd.Discard(); err != nil && err != wsutil.ErrInvalidUTF8 {
+										return explore.Failf("Discard-error", "%v", err)
+									}
+									if _, err := rd.NextFrame(); err != nil {
+										return explore.Failf("next-frame-refused", "%v", err)
+									}
+									p, err := io.ReadAll(rd)
+									if want := utf8.Valid(next); want != (err == nil) {
+										return explore.Failf("next-message-verdict-depends-on-rejected-one", "next %x: err=%v, utf8.Valid=%v", next, err, want)
+									}
+									if err == nil && !bytes.Equal(p, next) {
+										return explore.Failf("next-message-payload", "got %x want %x", p, next)
+									}
+									return nil
+								})
+							}
+						}
+					}
+				}
+			}
+			t.Outcome("independent")
+		})
+
 		// A fragmented text message during which the caller sees a recoverable error exactly at
 		// a frame boundary (a transient transport error before the next header; an error returned
 		// once by the caller's own control handler) and simply calls Read again. Whatever the
